@@ -286,6 +286,7 @@ def run(prog, chk):
     text_pointer_sources(prog, chk, "C06.n")
     substr_window(prog, chk, "C06.o")
     cstring_view_probed(prog, chk, "C06.p")
+    replace_searches_whole_rest(prog, chk, "C06.q")
 
 
 def formatted_length(prog, chk, fs):
@@ -907,3 +908,44 @@ def cstring_view_probed(prog, chk, rid):
                         "`%s` can be returned on a path (lines %s) on which the byte at length() was not seen to be zero and detach() did not run: "
                         "`String s; s.resize(n); strlen(s)` - a fresh block is not terminated at n, readers of the C string run past the text" % (
                             q.no_casts(f.r(n["c"][0]))[:30], f.path_lines(p1 or p2)[:8] if (p1 or p2) else "-"), f.path_lines(p1 or p2) if (p1 or p2) else None, evals=3)
+
+
+def replace_searches_whole_rest(prog, chk, rid):
+    """replace(needle, replacement) replaces EVERY occurrence: the search for the next one may be skipped only when the rest of the
+    text is shorter than the needle.  Each condition that guards a search is evaluated for a rest of exactly needle-length bytes
+    (a last occurrence that ends the text fits there): it must let the search run."""
+    chk.rule(rid, "FIN: in String::replace(needle, replacement) no condition that dominates a search for the needle is false when exactly "
+                  "needle.length() bytes of the text remain (evaluated with the cursor locals and the end of the text as numbers)", floor=1)
+    fs = [f for f in prog.functions.values() if f.name == "String::replace" and f.blocks and len(f.params) == 2 and "String" in f.params[0]["t"]]
+    if not fs:
+        raise AnalysisBroken("String::replace(const String&, const String&) not found")
+    f = fs[0]
+    nd = f.params[0]["n"]
+    searches = [c for c in q.calls(f) if (f.nodes[c].get("callee") or "") in ("strstr", "String::find", "memmem") and f.node_pos(c) is not None]
+    if not searches:
+        raise AnalysisBroken("String::replace: no search for the needle found")
+    L, P = 3, 1000
+    ptrs = [d for n in f.nodes if n["k"] == "DeclStmt" for d in n["decls"] if "*" in (d.get("t") or "")]
+    for c in searches:
+        cur = q.no_casts(f.r(q.call_args(f, c)[0])) if q.call_args(f, c) else None
+        val = {"%s.data->len" % nd: L, "%s.length()" % nd: L, "this->data->str": 900, "this->data->len": P - 900 + L}
+        for d in ptrs:
+            # the cursor of this search stands at P, an end pointer at P + L; any other pointer local (the last match) lies before the cursor
+            val[d["n"]] = P
+            ini = q.no_casts(f.r(d["init"])) if d.get("init") is not None else ""
+            if re.search(r"\+ ?(this->)?data->len|\+ ?this->length\(\)", ini):
+                val[d["n"]] = P + L
+        bad = None
+        atoms = [a for a in fin.dominating_atoms(f, f.node_pos(c)) if a[0] != "case"]
+        for a in atoms:
+            v = fin.eval_expr(f, a[0], val)
+            if v is not None and bool(v) != bool(a[1]):
+                bad = a
+                break
+        if bad:
+            chk.bad(rid, f, "search-skipped-with-room-for-a-match", f.where(c),
+                    "the search `%s` is guarded by `%s`, which fails when exactly %s.length() bytes remain: an occurrence of the needle that "
+                    "ends the text right behind the previous one is left in place (\"aa\".replace(\"a\", \"X\") gives \"Xa\")" % (
+                        q.no_casts(f.r(c))[:30], q.no_casts(f.r(bad[0]))[:50], nd), evals=len(atoms) + 1)
+        else:
+            chk.ok(rid, f, "search `%s` runs whenever a needle still fits" % q.no_casts(f.r(c))[:30], f.where(c), "%d guarding condition(s) evaluated" % len(atoms), evals=len(atoms) + 1)
